@@ -6,7 +6,10 @@ import (
 	"bytes"
 	"context"
 	"fmt"
+	"os"
+	"os/exec"
 	"strings"
+	"time"
 
 	xh2 "golang.org/x/net/http2"
 	xhpack "golang.org/x/net/http2/hpack"
@@ -485,7 +488,50 @@ func genReqFields(r *hx.Rng, pool *[]hItem, response bool) []hItem {
 	return fs
 }
 
+// canarySpecs: one HEADERS frame whose block is spread over three CONTINUATION frames.
+func canarySpecs() []fSpec {
+	return []fSpec{{kind: 'H', sid: 1, es: true, pad: -1, nfrag: 4, fields: []hItem{
+		{kind: 'f', name: ":status", val: "200"}, {kind: 'f', name: "x-a", val: "0123456789abcdef0123456789abcdef"},
+		{kind: 'f', name: "x-b", val: "0123456789abcdef0123456789abcdef"}}}}
+}
+
+// canaryContinuation runs in a child process: a reader that does not terminate cannot be stopped from inside.
+func canaryContinuation() {
+	fmt.Println(readM(writeX(canarySpecs()), nil))
+}
+
+// continuationTerminates reports whether MFramer.ReadFrame returns on a multi-CONTINUATION header block (checked in
+// a child process with a deadline: a looping reader also allocates without bound).
+func continuationTerminates() (bool, string) {
+	cmd := exec.Command(os.Args[0], "C18", "-tier", "canary-continuation")
+	var out bytes.Buffer
+	cmd.Stdout = &out
+	if err := cmd.Start(); err != nil {
+		return true, ""
+	}
+	done := make(chan error, 1)
+	go func() { done <- cmd.Wait() }()
+	select {
+	case <-done:
+		lines := strings.Split(strings.TrimSpace(out.String()), "\n")
+		return true, lines[len(lines)-1]
+	case <-time.After(10 * time.Second):
+		cmd.Process.Kill()
+		<-done
+		return false, ""
+	}
+}
+
 func runFrameSeqs(c *hx.Ctx) {
+	multiCont := true
+	if ok, _ := continuationTerminates(); !ok {
+		// report it as a case of its own and keep the rest of the run alive by not feeding such blocks in-process
+		specs := canarySpecs()
+		wire := writeX(specs)
+		c.Emit("C18", "frames x2m - - "+specs[0].String(), hx.Hex(wire)+" m=E:hang s=E:hang x="+readX(wire))
+		c.Count("frames.reader-does-not-terminate")
+		multiCont = false
+	}
 	m := c.N(400, 2500)
 	for k := 0; k < m; k++ {
 		r := c.Rng
@@ -517,6 +563,9 @@ func runFrameSeqs(c *hx.Ctx) {
 					f.nfrag++
 					c.Count("frames.empty-headers-fragment")
 				}
+				if !multiCont && f.nfrag > 2 {
+					f.nfrag = 2
+				}
 				if r.Intn(4) == 0 {
 					f.pad = []int{1, 2, 17, 255}[r.Intn(4)]
 					c.Count("frames.headers-padded")
@@ -531,6 +580,9 @@ func runFrameSeqs(c *hx.Ctx) {
 				if r.Intn(60) == 0 { // a header block beyond two frames
 					f.fields = append(f.fields, hItem{kind: 'f', name: "x-big", val: string(genTok(r, 40000))})
 					f.nfrag = 3 + r.Intn(2)
+					if !multiCont {
+						f.nfrag = 2
+					}
 					c.Count("frames.big-header-block")
 				}
 				specs = append(specs, f)
